@@ -16,6 +16,8 @@ reg(Prop('C07', [
         'pc_in_bounds (invariant of every evaluator step) + branch_target_exact (compute_pc accepts exactly 0 <= target <= len)',
         'iteration_bound: with max_iterations = Some n (n < u32::MAX) every conversation terminates within fuel n+1, never panics, <= n operations evaluated and <= 2n decoded',
         'pieces: shape of result()/value_result() after completion (unsized piece is the only piece; implicit Address piece of the value result)',
+        'normalised_machine_canonical: the specification oracle of c07.spec (model with every generic value reduced when pushed) keeps its stack canonical',
+        'iteration_limit_u32_max_refuted: max_iterations = u32::MAX does not bound a looping expression (debug panic / release non-termination in the model)',
     ],
     explored_only=[
         'float arithmetic results (+ - * /, float<->integer and f32<->f64 conversions are the section record fops; the driver instantiates it with hardware doubles and exact Zarith conversions)',
